@@ -1,6 +1,7 @@
 """C01 bounded layer: parse(format(x)) ~ parse(x) on the document space (flowmark's own parser as reader)."""
 from __future__ import annotations
 
+from . import docspace as D
 from . import pipeline as P
 from .common import *  # noqa: F401,F403
 
@@ -16,15 +17,46 @@ ASSUMPTIONS = [
 ]
 
 
+def escape_word_sweep(viol):
+    """markdown_escape_word on every word of <= 4 symbols: the result is the word with at most one backslash inserted; a
+    word that alone would start a block at a line start (bullet, quote, ATX heading run, ordered marker) is escaped so that
+    'x\\n<escaped> y' stays one paragraph; every other word is returned unchanged"""
+    import itertools
+    import re
+    from flowmark.linewrapping.text_wrapping import markdown_escape_word
+    block_start = re.compile(r"^([-*+>]|#{1,6}|[0-9]{1,9}[.)])$")
+    n = 0
+    for ln in range(1, 5):
+        for tup in itertools.product(["-", "*", "+", ">", "#", "1", "9", ".", ")", "a", "\\"], repeat=ln):
+            w = "".join(tup)
+            e = markdown_escape_word(w)
+            n += 1
+            ok = e == w or (len(e) == len(w) + 1 and any(e[:k] + e[k + 1:] == w and e[k] == "\\" for k in range(len(e))))
+            if not ok:
+                viol.append({"clause": "escape_word_inserts_one_backslash", "input": {"word": w}, "got": e})
+            elif block_start.match(w) and e == w:
+                viol.append({"clause": "escape_word_protects_block_starts", "input": {"word": w}, "got": e})
+            elif not block_start.match(w) and e != w and not re.match(r"^(#{7,}|[0-9]{10,}[.)])$", w):
+                viol.append({"clause": "escape_word_leaves_other_words", "input": {"word": w}, "got": e})
+            elif block_start.match(w):
+                doc = "x\n%s y\n" % e
+                if [b[0] for b in D.canonical(doc)[1]] != ["p"]:
+                    viol.append({"clause": "escape_word_protects_block_starts", "input": {"word": w}, "got": e})
+    return n
+
+
 def bounded(tier, seed):
     n = 120 if tier == "quick" else 1200
     fill = [dict(width=w, semantic=False) for w in (88, 20, 8, 4, 1, 0)]
     sem = [dict(width=w, semantic=True) for w in (88, 20, 8, 0)]
     r1 = P.sweep(seed, n, [P.same_structure], option_sets=fill, budget_s=25 if tier == "quick" else 600)
     r2 = P.sweep(seed + 7919, n, [P.same_structure], option_sets=sem, hazards=False, budget_s=20 if tier == "quick" else 600)
-    return {"evaluations": r1["evaluations"] + r2["evaluations"], "distinct_nontrivial": r1["distinct_nontrivial"] + r2["distinct_nontrivial"],
-            "violations": r1["violations"] + r2["violations"], "samples": r1["samples"],
-            "rule": "seeded documents from props/docspace.py x widths {88,20,8,4,1,0} fill mode (hazard words included) and "
+    ev = []
+    ne = escape_word_sweep(ev)
+    return {"evaluations": r1["evaluations"] + r2["evaluations"] + ne, "distinct_nontrivial": r1["distinct_nontrivial"] + r2["distinct_nontrivial"],
+            "violations": r1["violations"] + r2["violations"] + ev, "samples": r1["samples"],
+            "rule": "(also: markdown_escape_word on every word of <= 4 symbols over an 11-symbol alphabet against the CommonMark block-start "
+                    "rule) seeded documents from props/docspace.py x widths {88,20,8,4,1,0} fill mode (hazard words included) and "
                     "{88,20,8,0} semantic mode (no hazard words), cleanups/typography off, list_spacing=preserve: canonical tree of "
                     "input == canonical tree of output; distinct = distinct outputs",
             "exhaustive": False, "bound": "%d documents per mode, depth <= 2" % n}
@@ -73,4 +105,12 @@ def static_obligations(tier):
                      "status": "discharged" if set(stores) <= {"_current_inline_text"} else "refuted",
                      "src": "an inline render method assigns no renderer field other than _current_inline_text",
                      "detail": "assigns %s; calls %s" % (stores, calls_block)})
+    # the hard-break splitter: exactly the two CommonMark hard-break spellings (backslash-newline, two spaces + newline)
+    import re._parser as sp
+    from vfcore import relang
+    from flowmark.linewrapping import line_wrappers as LW
+    lang = relang.finite_language(sp.parse(LW._line_break_re.pattern, LW._line_break_re.flags))
+    recs.append({"oid": "shape/linewrapping.line_wrappers:_line_break_re/language_is_the_two_hard_break_spellings",
+                 "status": "discharged" if lang == {"\\\n", "  \n"} else ("refuted" if lang is not None else "unknown"),
+                 "src": "the language of _line_break_re is {backslash-newline, two spaces + newline}", "detail": repr(sorted(lang) if lang else lang)})
     return recs
